@@ -3,9 +3,11 @@ From Coq Require Import List Bool ZArith Lia.
 Import ListNotations.
 
 (* ---------------- Model ---------------- *)
-Inductive step := SOk | SFail (e : nat) | SPanic (p : nat).
+(* SDoneRb: a step that finishes the transaction itself (calls txn.Rollback()) and returns nil; what is left for
+   Transact is a Commit that database/sql answers with ErrTxDone without reaching the driver *)
+Inductive step := SOk | SFail (e : nat) | SPanic (p : nat) | SDoneRb.
 Inductive event := EBegin | EBeginFail | EExec (i : nat) | ECommit | ERollback.
-Inductive result := RNil | RStepErr (e : nat) | RPanicErr (p : nat) | RBeginErr | RCommitErr.
+Inductive result := RNil | RStepErr (e : nat) | RPanicErr (p : nat) | RBeginErr | RCommitErr | RTxDone.
 
 Record cfg := { begin_ok : bool; commit_ok : bool; rollback_ok : bool; steps : list step }.
 
@@ -16,6 +18,7 @@ Fixpoint run_steps (i : nat) (l : list step) : list event * result :=
   | SOk :: l' => let '(ev, r) := run_steps (S i) l' in (EExec i :: ev, r)
   | SFail e :: _ => ([EExec i], RStepErr e)
   | SPanic p :: _ => ([EExec i], RPanicErr p)
+  | SDoneRb :: _ => ([EExec i; ERollback], RTxDone)
   end.
 
 Definition transact (c : cfg) : list event * result :=
@@ -27,17 +30,18 @@ Definition transact (c : cfg) : list event * result :=
       let '(ev, r) := run_steps 0 (steps c) in
       match r with
       | RNil => (EBegin :: ev ++ [ECommit], if commit_ok c then RNil else RCommitErr)
+      | RTxDone => (EBegin :: ev, RTxDone)              (* already finished by the step: nothing reaches the driver *)
       | _ => (EBegin :: ev ++ [ERollback], r)           (* rollback error is only logged *)
       end
   end.
 
 (* ---------------- decidable equalities for the case files ---------------- *)
-Definition step_eqb a b := match a, b with SOk, SOk => true | SFail x, SFail y => Nat.eqb x y | SPanic x, SPanic y => Nat.eqb x y | _, _ => false end.
+Definition step_eqb a b := match a, b with SOk, SOk => true | SDoneRb, SDoneRb => true | SFail x, SFail y => Nat.eqb x y | SPanic x, SPanic y => Nat.eqb x y | _, _ => false end.
 Definition event_eqb a b := match a, b with
   | EBegin, EBegin | EBeginFail, EBeginFail | ECommit, ECommit | ERollback, ERollback => true
   | EExec x, EExec y => Nat.eqb x y | _, _ => false end.
 Definition result_eqb a b := match a, b with
-  | RNil, RNil | RBeginErr, RBeginErr | RCommitErr, RCommitErr => true
+  | RNil, RNil | RBeginErr, RBeginErr | RCommitErr, RCommitErr | RTxDone, RTxDone => true
   | RStepErr x, RStepErr y => Nat.eqb x y | RPanicErr x, RPanicErr y => Nat.eqb x y | _, _ => false end.
 Fixpoint list_eqb {A} (e : A -> A -> bool) (x y : list A) : bool :=
   match x, y with [] , [] => true | a :: x', b :: y' => e a b && list_eqb e x' y' | _, _ => false end.
@@ -82,16 +86,18 @@ Definition holds (c : cfg) (t : trace) : bool :=
          | None => Nat.eqb (count is_exec ev) (length (steps c))
                    && result_eqb r (if commit_ok c then RNil else RCommitErr)        (* nil only if commit succeeded *)
          | Some (i, s) => Nat.eqb (count is_exec ev) (S i)                           (* no later step runs *)
-                   && result_eqb r (match s with SFail e => RStepErr e | SPanic p => RPanicErr p | SOk => RNil end)
+                   && result_eqb r (match s with SFail e => RStepErr e | SPanic p => RPanicErr p | SOk => RNil | SDoneRb => RTxDone end)
          end
   end.
 
 (* ---------------- Proofs ---------------- *)
-Definition res_of (s : step) : result := match s with SFail e => RStepErr e | SPanic p => RPanicErr p | SOk => RNil end.
+Definition res_of (s : step) : result := match s with SFail e => RStepErr e | SPanic p => RPanicErr p | SOk => RNil | SDoneRb => RTxDone end.
+
+Definition rb_of (r : result) : nat := match r with RTxDone => 1 | _ => 0 end.
 
 Lemma run_steps_spec : forall l i,
   let '(ev, r) := run_steps i l in
-  count is_begin ev = 0 /\ count is_commit ev = 0 /\ count is_rollback ev = 0 /\
+  count is_begin ev = 0 /\ count is_commit ev = 0 /\ count is_rollback ev = rb_of r /\
   match first_bad i l with
   | None => count is_exec ev = length l /\ r = RNil /\ all_ok l = true
   | Some (j, s) => i <= j /\ count is_exec ev = S (j - i) /\ r = res_of s /\ r <> RNil /\ all_ok l = false
@@ -99,13 +105,14 @@ Lemma run_steps_spec : forall l i,
 Proof.
   induction l as [|s l IH]; intros i; cbn [run_steps first_bad].
   - cbn. repeat split; auto.
-  - destruct s as [|e|p].
+  - destruct s as [|e|p|].
     + specialize (IH (S i)). destruct (run_steps (S i) l) as [ev r].
       destruct IH as (B & C & R & H). unfold count in *. cbn [filter is_begin is_commit is_rollback is_exec].
-      repeat split; auto.
+      split; [exact B|]. split; [exact C|]. split; [exact R|].
       destruct (first_bad (S i) l) as [[j s]|].
       * destruct H as (Hij & Hc & Hr & Hn & Ha). cbn [length]. repeat split; auto; try lia.
-      * destruct H as (Hc & Hr & Ha). cbn [length all_ok forallb]. repeat split; auto. 
+      * destruct H as (Hc & Hr & Ha). cbn [length all_ok forallb]. repeat split; auto.
+    + cbn. rewrite Nat.sub_diag. repeat split; auto; try lia; discriminate.
     + cbn. rewrite Nat.sub_diag. repeat split; auto; try lia; discriminate.
     + cbn. rewrite Nat.sub_diag. repeat split; auto; try lia; discriminate.
 Qed.
@@ -113,31 +120,55 @@ Qed.
 Lemma count_app p a b : count p (a ++ b) = count p a + count p b.
 Proof. unfold count. now rewrite filter_app, app_length. Qed.
 
+Lemma count_cons p a l : count p (a :: l) = (if p a then 1 else 0) + count p l.
+Proof. unfold count. cbn [filter]. destruct (p a); reflexivity. Qed.
+
+Lemma count_nil p : count p [] = 0.
+Proof. reflexivity. Qed.
+
 Lemma result_eqb_refl r : result_eqb r r = true.
 Proof. destruct r; cbn; auto using Nat.eqb_refl. Qed.
 
+(* the shape of the finished trace, by the way the step loop ended *)
+Lemma transact_shape (cm rb : bool) s0 l0 ev r :
+  run_steps 0 (s0 :: l0) = (ev, r) ->
+  transact {| begin_ok := true; commit_ok := cm; rollback_ok := rb; steps := s0 :: l0 |} =
+  match r with
+  | RNil => (EBegin :: ev ++ [ECommit], if cm then RNil else RCommitErr)
+  | RTxDone => (EBegin :: ev, RTxDone)
+  | _ => (EBegin :: ev ++ [ERollback], r)
+  end.
+Proof. intros E. unfold transact. cbn [steps begin_ok commit_ok negb]. rewrite E. reflexivity. Qed.
+
 Theorem model_holds : forall c, holds c (transact c) = true.
 Proof.
-  intros [b cm rb l]. unfold holds, transact. cbn [steps begin_ok commit_ok rollback_ok].
-  destruct l as [|s0 l0]; [reflexivity|].
-  set (l := s0 :: l0).
-  destruct b; cbn [negb]; [|reflexivity].
-  pose proof (run_steps_spec l 0) as H. destruct (run_steps 0 l) as [ev r].
+  intros [b cm rb l]. destruct l as [|s0 l0]; [reflexivity|].
+  destruct b; [|reflexivity].
+  pose proof (run_steps_spec (s0 :: l0) 0) as H. destruct (run_steps 0 (s0 :: l0)) as [ev r] eqn:E.
+  rewrite (transact_shape cm rb s0 l0 ev r E).
+  unfold holds. cbn [steps begin_ok commit_ok negb].
   destruct H as (B & C & R & H).
-  destruct (first_bad 0 l) as [[j s]|] eqn:Efb.
+  destruct (first_bad 0 (s0 :: l0)) as [[j s]|] eqn:Efb.
   - destruct H as (_ & Hc & Hr & Hn & Ha). rewrite Nat.sub_0_r in Hc.
-    assert (Hcase : (EBegin :: ev ++ [ERollback], r) =
-            match r with RNil => (EBegin :: ev ++ [ECommit], if cm then RNil else RCommitErr) | _ => (EBegin :: ev ++ [ERollback], r) end)
-      by (destruct r; congruence).
-    rewrite <- Hcase. cbn [fst snd].
-    unfold count in *. cbn [filter is_begin is_commit is_rollback is_exec].
-    rewrite !filter_app. cbn [filter is_begin is_commit is_rollback is_exec].
-    rewrite ?app_nil_r, ?app_length. cbn [length]. rewrite ?B, ?C, ?R, ?Hc, ?Ha. cbn. rewrite Nat.eqb_refl. cbn.
-    subst r. destruct s; cbn in *; try congruence; now rewrite Nat.eqb_refl.
-  - destruct H as (Hc & -> & Ha). cbn [fst snd].
-    unfold count in *. cbn [filter is_begin is_commit is_rollback is_exec].
-    rewrite !filter_app. cbn [filter is_begin is_commit is_rollback is_exec].
-    rewrite ?app_nil_r, ?app_length. cbn [length]. rewrite ?B, ?C, ?R, ?Hc, ?Ha. cbn. rewrite Nat.eqb_refl. cbn. apply result_eqb_refl.
+    assert (Hfin : let t := match r with
+              | RNil => (EBegin :: ev ++ [ECommit], if cm then RNil else RCommitErr)
+              | RTxDone => (EBegin :: ev, RTxDone)
+              | _ => (EBegin :: ev ++ [ERollback], r) end in
+            count is_begin (fst t) = 1 /\ count is_commit (fst t) = 0 /\ count is_rollback (fst t) = 1 /\
+            count is_exec (fst t) = S j /\ snd t = r).
+    { destruct r; try congruence; cbn [fst snd rb_of] in *;
+        rewrite ?count_cons, ?count_app, ?count_cons, ?count_nil; cbn [is_begin is_commit is_rollback is_exec];
+        rewrite ?B, ?C, ?R, ?Hc; cbn [rb_of]; repeat split; lia. }
+    cbv zeta in Hfin. destruct Hfin as (F1 & F2 & F3 & F4 & F5).
+    rewrite F1, F2, F3, F4, F5, Ha. rewrite Hr. fold (res_of s). rewrite result_eqb_refl, !Nat.eqb_refl. reflexivity.
+  - destruct H as (Hc & -> & Ha). cbn [fst snd rb_of] in *.
+    rewrite !count_cons, !count_app, !count_cons, !count_nil. cbn [is_begin is_commit is_rollback is_exec].
+    rewrite B, C, R, Hc, Ha. cbn [rb_of].
+    replace (0 + (0 + (1 + 0)) + (0 + (0 + (0 + 0)))) with 1 by lia.
+    replace (1 + (0 + (0 + 0))) with 1 by lia.
+    replace (0 + (0 + (1 + 0))) with 1 by lia.
+    replace (0 + (length (s0 :: l0) + (0 + 0))) with (length (s0 :: l0)) by lia.
+    rewrite !Nat.eqb_refl. cbn [andb Bool.eqb]. apply result_eqb_refl.
 Qed.
 
 Theorem accept_sound : forall c t, accept c t = true -> holds c t = true.
